@@ -319,7 +319,9 @@ SGal3TangentBase<_Derived>::ljac() const {
 
   // Block N2, part of N
   Scalar cC, cD, cE, cF;
-  if (theta_cu > Constants<Scalar>::eps) {
+  // the closed forms below divide differences of O(1) terms by theta^4 .. theta^6:
+  // switch to the series while theta^6 < eps (|theta| < 5e-3 in double)
+  if (theta_cu * theta_cu > Constants<Scalar>::eps) {
     cA = (Scalar(2) - theta * sin_t - Scalar(2) * cos_t) / theta_cu / theta;
     cB = (
       theta_cu + Scalar(6) * theta + Scalar(6) * theta * cos_t - Scalar(12) * sin_t
@@ -334,9 +336,9 @@ SGal3TangentBase<_Derived>::ljac() const {
     cF = (theta_cu + Scalar(6) * (sin_t - theta)) / (Scalar(6) * theta_cu * theta_sq);
   } else {
     cA = Scalar(1. / 12.);
-    cB = Scalar(1. / 24.);
-    cC = Scalar(1. / 10.);
-    cD = Scalar(1. / 240.);
+    cB = Scalar(1. / 40.);
+    cC = Scalar(1. / 60.);
+    cD = Scalar(1. / 144.);
     cE = Scalar(1. / 24.);
     cF = Scalar(1. / 120.);
   }
